@@ -58,8 +58,9 @@ func IterateProcessedTime(store sdk.KVStore, cb func(key, val []byte) bool) {
 		key := iterator.Key()
 		// processed time key in prefix store has format: "consensusStates/<height>/processedTime", where
 		// <height> is 16 raw big-endian bytes that may themselves contain the separator "/":
-		// recognise the key by its length and suffix instead of splitting on "/"
-		if len(key) != len(host.KeyConsensusStatePrefix)+1+16+len(KeyProcessedTime) || !bytes.HasSuffix(key, KeyProcessedTime) {
+		// recognise the key by its suffix instead of splitting on "/"; a bare consensus state key
+		// ("consensusStates/<height>", told apart by its length) is never a processed time key
+		if len(key) == len(host.KeyConsensusStatePrefix)+1+16 || !bytes.HasSuffix(key, KeyProcessedTime) {
 			// ignore all consensus state keys
 			continue
 		}
